@@ -37,8 +37,16 @@ def load_known():
 
 
 def match_known(known, pid, key):
+    """a finding applies to its own property and to the properties listed under 'also'
+    (checks that borrow the same templates, e.g. C01); borrowed templates carry a
+    'cNN~' prefix which is ignored for matching"""
+    import re
+
+    bare = re.sub(r"^c\d+~", "", key)
     for k in known.get("findings", []):
-        if k["property"] == pid and fnmatch.fnmatchcase(key, k["key"]):
+        if (k["property"] == pid or pid in k.get("also", [])) and (
+            fnmatch.fnmatchcase(key, k["key"]) or fnmatch.fnmatchcase(bare, k["key"])
+        ):
             return k
     return None
 
